@@ -71,13 +71,58 @@ def compared_constants(fn, attr: str | None, name: str | None = None):
     return out
 
 
+def table_keys(m: Module, fn, attr, name=None, nodes=None):
+    """Dispatch through a table instead of an if-chain: the string keys of every dict display that fn indexes with
+    `<x>.<attr>` (or Name `name`): T[x.attr], T.get(x.attr, ...), `x.attr in T`.  T is a module-level name, a local, or an
+    instance / class attribute assigned a dict display (or dict(...) of keyword arguments) somewhere in the module."""
+    def is_key(e):
+        return (attr and isinstance(e, ast.Attribute) and e.attr == attr) or (name and isinstance(e, ast.Name) and e.id == name)
+
+    tables = []
+    for n in ast.walk(fn):
+        if isinstance(n, ast.Subscript) and is_key(n.slice):
+            tables.append(n.value)
+        elif isinstance(n, ast.Call) and isinstance(n.func, ast.Attribute) and n.func.attr in ("get", "__getitem__") \
+                and n.args and is_key(n.args[0]):
+            tables.append(n.func.value)
+        elif isinstance(n, ast.Compare) and len(n.ops) == 1 and isinstance(n.ops[0], (ast.In, ast.NotIn)) and is_key(n.left) \
+                and isinstance(n.comparators[0], (ast.Name, ast.Attribute)):
+            tables.append(n.comparators[0])
+    out = set()
+    for t in tables:
+        d = dotted(t)
+        if not d:
+            continue
+        for st in ast.walk(m.tree):
+            if not isinstance(st, (ast.Assign, ast.AnnAssign)) or getattr(st, "value", None) is None:
+                continue
+            tgts = st.targets if isinstance(st, ast.Assign) else [st.target]
+            if not any(dotted(x) == d or (dotted(x) or "").split(".")[-1] == d.split(".")[-1] and "." in d for x in tgts):
+                continue
+            v = st.value
+            if nodes is not None:
+                nodes.append(v)
+            if isinstance(v, ast.Dict):
+                out |= {k.value for k in v.keys if isinstance(k, ast.Constant) and isinstance(k.value, str)}
+            elif isinstance(v, ast.Call) and dotted(v.func) in ("dict", "MappingProxyType", "types.MappingProxyType"):
+                out |= {kw.arg for kw in v.keywords if kw.arg}
+                for a in v.args:
+                    if isinstance(a, ast.Dict):
+                        out |= {k.value for k in a.keys if isinstance(k, ast.Constant) and isinstance(k.value, str)}
+    return out
+
+
 def compared_constants_deep(m: Module, fn, attr, name=None, depth=3, _seen=None):
     """compared_constants over fn and the functions of the same module it calls (helpers extracted from it)."""
     _seen = _seen if _seen is not None else set()
     if id(fn) in _seen:
         return set()
     _seen.add(id(fn))
-    out = compared_constants(fn, attr, name)
+    # tables of *any* key (a handler reached through a kind table may itself dispatch on a base-name table)
+    table_nodes: list = []
+    out = compared_constants(fn, attr, name) | table_keys(m, fn, attr, name)
+    for a2 in ("kind", "name"):
+        table_keys(m, fn, a2, a2, table_nodes)
     if depth <= 0:
         return out
     by_name = {}
@@ -89,6 +134,14 @@ def compared_constants_deep(m: Module, fn, attr, name=None, depth=3, _seen=None)
         callee = by_name.get(short)
         if callee is not None and callee is not fn and (d == short or d.startswith("self.") or d.startswith("cls.")):
             out |= compared_constants_deep(m, callee, attr, name, depth - 1, _seen)
+    # handlers stored in a dispatch table are reached through the table, not through a call by name
+    for tn in table_nodes:
+        for r in ast.walk(tn):
+            d = dotted(r) if isinstance(r, (ast.Name, ast.Attribute)) else None
+            if d and d.split(".")[-1] in by_name and (d == d.split(".")[-1] or d.startswith("self.") or d.startswith("cls.")):
+                callee = by_name[d.split(".")[-1]]
+                if callee is not fn:
+                    out |= compared_constants_deep(m, callee, attr, name, depth - 1, _seen)
     return out
 
 
